@@ -11,8 +11,11 @@ Theorem C02_union_arms_are_the_live_variants :
   forall is_upper is_alnum is_numeric R inl flt a tg raf vs args t fl,
     vs <> [] -> c_type a = None -> c_as a = None ->
     def_body is_upper is_alnum is_numeric R inl flt (DEnum a tg raf vs) args = Ok (t, fl) ->
-    exists arms, t = TUnion arms /\ fl = Some (TParen (TUnion arms)) /\
-      Forall2 (fun v x => variant_gen is_upper is_alnum is_numeric R inl flt args a tg raf v = Ok x) (live_variants vs) arms.
+    exists arms, Forall2 (fun v x => variant_gen is_upper is_alnum is_numeric R inl flt args a tg raf v = Ok x) (live_variants vs) arms /\
+      match arms with
+      | [] => t = TPrim (lit "never") /\ fl = None
+      | _ => t = TUnion arms /\ fl = Some (TParen (TUnion arms))
+      end.
 Proof. exact enum_arms. Qed.
 
 Theorem C02_tuple_length :
